@@ -441,6 +441,17 @@ class Run:
         with Driver(self.budget) as drv:
             self.drv = drv
             cls = self._make_class()
+            if case.get('late_fault'):
+                # fault: the application's on_terminated fails (once) after the library's part of it has run, i.e. when the process is in its
+                # terminal state and closed already
+                class LateFault(cls):
+                    def on_terminated(self):
+                        super().on_terminated()
+                        if not getattr(self, '_late_fault_fired', False):
+                            self._late_fault_fired = True
+                            raise RuntimeError('late fault in on_terminated')
+
+                cls = LateFault
             programs.CURRENT_REC = self.rec
             try:
                 self.proc = proc = self._construct(cls, drv.loop)
